@@ -277,7 +277,7 @@ theorem attached_ready (cfg : Cfg) (fuel : Nat) (sched : List Act) (pick : List 
 no `startModule` is ever called -/
 theorem no_half_start (cfg : Cfg) (fuel : Nat) (sched : List Act) (pick : List Name → Nat) :
     NoHalfStart ⟨(run cfg fuel sched pick).st.modules, (run cfg fuel sched pick).st.errors,
-      (run cfg fuel sched pick).log, (run cfg fuel sched pick).st.ioDict, []⟩ := by
+      (run cfg fuel sched pick).log, (run cfg fuel sched pick).st.ioDict, [], []⟩ := by
   intro herr e he
   simp only at herr he
   rw [(run_log cfg fuel sched pick).1] at herr
@@ -296,7 +296,7 @@ def bad_attachment_reported_statement : Prop :=
     let r := run cfg fuel sched pick
     r.st.oof = false →
     (badAttachmentB cfg r.st.ioDict = true → r.st.errors ≠ []) ∧
-    NoHalfStart ⟨r.st.modules, r.st.errors, r.log, r.st.ioDict, []⟩
+    NoHalfStart ⟨r.st.modules, r.st.errors, r.log, r.st.ioDict, [], []⟩
 
 /-- parameter values the configuration gets wrong are "reported as a configuration error instead of a half-started
 node" as well: a declared module with a configured value that is not of the parameter's datatype, or without a value
@@ -652,7 +652,7 @@ theorem comm_failure_writes_made_up :
        Ev.firstpoll "b"] ∧
     WritesBeforeFirstPoll [cfA, cfB] (run cfCfg 20 [] (fun _ => 0)).log ∧
     judge cfCfg ⟨(run cfCfg 20 [] (fun _ => 0)).st.modules, [], (run cfCfg 20 [] (fun _ => 0)).log, [],
-      writtenOf (run cfCfg 20 [] (fun _ => 0)).st (run cfCfg 20 [] (fun _ => 0)).log⟩ = [] := by
+      writtenOf (run cfCfg 20 [] (fun _ => 0)).st (run cfCfg 20 [] (fun _ => 0)).log, []⟩ = [] := by
   decide +kernel
 
 /-- the hypotheses are met by the configuration of the former finding (shared communicator, a communication failure) and
@@ -728,7 +728,7 @@ theorem sample_run_accepted :
     judge sampleCfg ⟨(run sampleCfg 20 [.main, .main, .step "c"] (fun _ => 1)).st.modules, [],
       (run sampleCfg 20 [.main, .main, .step "c"] (fun _ => 1)).log, [],
       writtenOf (run sampleCfg 20 [.main, .main, .step "c"] (fun _ => 1)).st
-        (run sampleCfg 20 [.main, .main, .step "c"] (fun _ => 1)).log⟩ = [] := by
+        (run sampleCfg 20 [.main, .main, .step "c"] (fun _ => 1)).log, []⟩ = [] := by
   decide +kernel
 
 /-- the hypotheses of `init_order_once_of_up` are met by that configuration (Pinata, dynamic module, communicator) -/
